@@ -232,6 +232,24 @@ func trimStack(st string) string {
 	return strings.Join(lines, "\n")
 }
 
+// Go runs fn in a new goroutine; a panic in it is recorded as a violation of
+// this case instead of killing the process.  done (optional) is closed on exit.
+func (c *Case) Go(done func(), fn func()) {
+	go func() {
+		defer func() {
+			if p := recover(); p != nil {
+				msg := fmt.Sprint(p)
+				st := string(debug.Stack())
+				c.Violation("panic/"+normPanic(msg, st), msg+"\n"+trimStack(st), nil)
+			}
+			if done != nil {
+				done()
+			}
+		}()
+		fn()
+	}()
+}
+
 // Violation records a violation found by this case.
 func (c *Case) Violation(sig, detail string, witness any) {
 	r := c.R
